@@ -54,28 +54,35 @@ static size_t RandLen(Rng &r, bool thorough) {
 
 static void Fill(Rng &r, Metadata *m, int depth, int max_depth, int *budget, bool thorough, const std::vector<std::string> &pool, Stats &st) {
   st.max_depth = std::max<int64_t>(st.max_depth, depth);
-  int ne = r.below(4) == 0 ? 0 : static_cast<int>(r.below(r.below(5) == 0 ? 40 : 6));
-  for (int i = 0; i < ne && *budget > 0; ++i, --*budget) {
-    std::string name = (!pool.empty() && r.below(3) == 0) ? pool[r.below(pool.size())] : RandName(r, st);
-    ++st.entries;
-    switch (r.below(7)) {
-      case 0: m->AddEntryInt(name, static_cast<int32_t>(r.u32())); break;
-      case 1: m->AddEntryDouble(name, r.below(3) == 0 ? NAN : r.gauss() * 1e10); break;
-      case 2: { std::vector<int32_t> v((RandLen(r, thorough) + 3) / 4); for (auto &x : v) x = static_cast<int32_t>(r.u32()); if (v.empty()) ++st.empty_values; m->AddEntryIntArray(name, v); break; }
-      case 3: { std::vector<double> v((RandLen(r, thorough) + 7) / 8); for (auto &x : v) x = r.gauss(); if (v.empty()) ++st.empty_values; m->AddEntryDoubleArray(name, v); break; }
-      case 4: { std::string s(RandLen(r, thorough), 'x'); for (auto &c : s) c = static_cast<char>(1 + r.below(255)); if (s.empty()) ++st.empty_values; m->AddEntryString(name, s); break; }
-      default: { std::vector<uint8_t> v(RandLen(r, thorough)); for (auto &x : v) x = static_cast<uint8_t>(r.below(256)); if (v.empty()) ++st.empty_values; m->AddEntryBinary(name, v); break; }
+  auto add_entries = [&]() {
+    int ne = r.below(4) == 0 ? 0 : static_cast<int>(r.below(r.below(5) == 0 ? 40 : 6));
+    for (int i = 0; i < ne && *budget > 0; ++i, --*budget) {
+      std::string name = (!pool.empty() && r.below(3) == 0) ? pool[r.below(pool.size())] : RandName(r, st);
+      ++st.entries;
+      switch (r.below(7)) {
+        case 0: m->AddEntryInt(name, static_cast<int32_t>(r.u32())); break;
+        case 1: m->AddEntryDouble(name, r.below(3) == 0 ? NAN : r.gauss() * 1e10); break;
+        case 2: { std::vector<int32_t> v((RandLen(r, thorough) + 3) / 4); for (auto &x : v) x = static_cast<int32_t>(r.u32()); if (v.empty()) ++st.empty_values; m->AddEntryIntArray(name, v); break; }
+        case 3: { std::vector<double> v((RandLen(r, thorough) + 7) / 8); for (auto &x : v) x = r.gauss(); if (v.empty()) ++st.empty_values; m->AddEntryDoubleArray(name, v); break; }
+        case 4: { std::string s(RandLen(r, thorough), 'x'); for (auto &c : s) c = static_cast<char>(1 + r.below(255)); if (s.empty()) ++st.empty_values; m->AddEntryString(name, s); break; }
+        default: { std::vector<uint8_t> v(RandLen(r, thorough)); for (auto &x : v) x = static_cast<uint8_t>(r.below(256)); if (v.empty()) ++st.empty_values; m->AddEntryBinary(name, v); break; }
+      }
     }
-  }
-  if (depth >= max_depth) return;
-  int ns = static_cast<int>(r.below(depth == 0 ? 4 : 3));
-  if (r.below(20) == 0) ns = 10 + r.below(30);
-  for (int i = 0; i < ns && *budget > 0; ++i, --*budget) {
-    std::string name = (!pool.empty() && r.below(3) == 0) ? pool[r.below(pool.size())] : RandName(r, st);
-    std::unique_ptr<Metadata> sub(new Metadata());
-    Fill(r, sub.get(), depth + 1, max_depth, budget, thorough, pool, st);
-    if (m->AddSubMetadata(name, std::move(sub))) ++st.subs;
-  }
+  };
+  auto add_subs = [&]() {
+    if (depth >= max_depth) return;
+    int ns = static_cast<int>(r.below(depth == 0 ? 4 : 3));
+    if (r.below(20) == 0) ns = 10 + r.below(30);
+    for (int i = 0; i < ns && *budget > 0; ++i, --*budget) {
+      std::string name = (!pool.empty() && r.below(3) == 0) ? pool[r.below(pool.size())] : RandName(r, st);
+      std::unique_ptr<Metadata> sub(new Metadata());
+      Fill(r, sub.get(), depth + 1, max_depth, budget, thorough, pool, st);
+      if (m->AddSubMetadata(name, std::move(sub))) ++st.subs;
+    }
+  };
+  // The order in which a node receives its entries and its sub-metadata is the caller's choice (names come from a
+  // shared pool, so an entry and a sub-metadata of one node may carry the same name).
+  if (r.below(2)) { add_entries(); add_subs(); } else { add_subs(); add_entries(); }
 }
 
 // Exact classification of the final tree (names may come from the reuse pool).
